@@ -573,10 +573,10 @@ def plan(tier, cls_name="full"):
                 if spec["ackpl"]:
                     prefixes.append([("tx", 1, 0, 1, False), ("tx", 5, 1, 32, False), ("tx", 5, 0, 0, True)])
             for prefix in prefixes:
-                for group in ("fifo", "flags", "irq"):
-                    if v and group != "fifo" and prefix:
-                        continue  # the reduced groups do not depend on the payload-length variant
-                    items.append((spec, prefix, group, depth, v))
+                for group in ("fifo", "flags", "irq", "all"):
+                    if v and group != "fifo":
+                        continue  # the flags / irq / all groups do not depend on the payload-length variant
+                    items.append((spec, prefix, group, depth - 1 if group == "all" else depth, v))
     return items, depth
 
 
@@ -603,7 +603,7 @@ def run_accessors(tier, seed, rep, cls_name="full", pid=PID, only=None):
     return dict(depth=depth, searches=len(work), cls=cls_name,
                 roots="role/payload mode %s (rx: DUT listens on pipes 0/1/5 and is fed by a ghost PTX; tx: DUT transmits to a ghost PRX that "
                       "acknowledges, attaches ACK payloads, or is deaf; mixed: pipe 1 static, others dynamic) x start {empty FIFOs; RX FIFO full / "
-                      "TX FIFO 3 deep behind a failed transmission; after ACK-payload traffic} x operation group {fifo, flags, irq} x payload-length "
+                      "TX FIFO 3 deep behind a failed transmission; after ACK-payload traffic} x operation group {fifo, flags, irq, all (depth-1)} x payload-length "
                       "variant {a,b,c} (dynamic rx searches: the 9 pipe x length combinations are spread over 3 alphabets)" % ", ".join(modes),
                 fifo_occupancy="0..3 payloads per FIFO (a 4th arrival is dropped by the radio and explored too)",
                 payloads="lengths {1,5,32} on pipes {0,1,5}; static lengths 5/32/1 on pipes 0/1/5 (lite: 5 everywhere)")
@@ -616,9 +616,9 @@ def run(tier, seed, rep, only=None):
         exhaustive=True,
         rule="E-BFS with duplicate-state elimination: from every root all sequences over (traffic events + accessor calls of the group) "
              "up to the depth are applied to deep-copied (world, RF24, radio, ghost) states; the oracle runs after every operation. "
-             "Groups: fifo = update/available/pipe/any/read/fifo(7 forms)/tx_full/irq_*/flush_rx/flush_tx/last_tx_arc + full traffic alphabet; "
+             "Groups: fifo = update/available/pipe/any/read/read(n)/fifo(7 forms)/tx_full/irq_*/flush_rx/flush_tx/last_tx_arc + full traffic alphabet; "
              "flags = clear_status_flags (8 combinations + default) + reduced traffic; irq = interrupt_config (8 + default) + single-flag clears "
-             "+ reduced traffic. A transition is non-trivial when a FIFO is occupied, a flag is latched or it is a traffic event; distinct is "
+             "+ reduced traffic; all = union of the three accessor alphabets + reduced traffic, one level shallower (cross-group interleavings). A transition is non-trivial when a FIFO is occupied, a flag is latched or it is a traffic event; distinct is "
              "counted conservatively as distinct (search, RX occupancy + head pipe/length, TX occupancy, latched flags, cached STATUS, operation) - "
              "many more distinct (state, operation) pairs are executed (see transitions). Canonical state = radio registers/FIFOs/CE/mode (without PID counters and PLOS_CNT) + all "
              "driver attributes + last shifted-out STATUS + harness bookkeeping.",
